@@ -143,6 +143,13 @@ func (tds *Conn) NewChannel() (*Channel, error) {
 func (tdsChan *Channel) Reset() {
 	tdsChan.RLock()
 	defer tdsChan.RUnlock()
+	tdsChan.reset()
+}
+
+// reset is Reset for callers that hold the read lock already. The read
+// lock must not be acquired a second time - a Close waiting for the
+// write lock in between blocks the second acquisition forever.
+func (tdsChan *Channel) reset() {
 	if tdsChan.closed {
 		return
 	}
@@ -566,7 +573,7 @@ func (tdsChan *Channel) SendRemainingPackets(ctx context.Context) error {
 
 	// SendRemainingPackets is only called when completing sending
 	// packets to the server and preparing to receive the answer.
-	defer tdsChan.Reset()
+	defer tdsChan.reset()
 	return tdsChan.sendPackets(ctx, false)
 }
 
